@@ -290,9 +290,12 @@ def same(o1, o2):
     return a == b
 
 
-def value_sets(t):
-    av = INT_VALUES
-    bv = INT_VALUES if uses(t, 'b') else [1]
+BIG_VALUES = [7, 8, 31, 32, 33, 63, 64, 65, 100, 127, -128]
+
+
+def value_sets(t, big=False):
+    av = INT_VALUES + (BIG_VALUES if big else [])
+    bv = (INT_VALUES + (BIG_VALUES if big else [])) if uses(t, 'b') else [1]
     sv = SEQ_VALUES if uses(t, 's') else [[1, 2, 3]]
     dv = DATA_VALUES if uses(t, 'd') else [b'ab']
     if not uses(t, 'a'):
@@ -318,7 +321,8 @@ def check_tree_direct(t, K, fields, compile_expr_into_callable, st, fam):
         st.violate('build-fails ' + fam, 'building/compiling %s raised %r' % (render(t), e), {'tree': t, 'channel': 'direct'})
         return
     st.inc('trees')
-    for vals in value_sets(t):
+    # depth-1 trees also see operands at word boundaries (shift counts and exponents of 31..65, 100, 127, -128)
+    for vals in value_sets(t, big=(fam == 'int-d1')):
         p = K(a=vals['a'], b=vals['b'], ns=len(vals['s']), s=list(vals['s']), nd=len(vals['d']), d=vals['d'])
         exp = outcome(lambda: eager(t, vals))
         got = outcome(lambda: fn(pkt=p))
@@ -621,7 +625,7 @@ def run(tier):
         'public_classes': st.n.get('public_classes', 0),
         'rule': 'all expression trees of depth <=1 and %s over 18 binary operators in every operand order (field/const/sub-expression), '
                 'neg/invert/truth, plus the sequence family (index, constant slices, len, ==/!=) and the n-ary family (chooses in list/positional/'
-                'dict/keyword form, if_true_then_else), plus groups of sibling expressions over the same fields that differ only in equal-comparing constants of different type (2/2.0, 1/True/1.0, 0/False/0.0) compiled side by side; operands a,b in -2..3, s in [],[0],[1,2,3], d in b"",b"ab"; '
+                'dict/keyword form, if_true_then_else), plus groups of sibling expressions over the same fields that differ only in equal-comparing constants of different type (2/2.0, 1/True/1.0, 0/False/0.0) compiled side by side; operands a,b in -2..3 (depth-1 trees also 7, 8, 31..33, 63..65, 100, 127, -128), s in [],[0],[1,2,3], d in b"",b"ab"; '
                 'states = distinct (ok/exception, result type or exception class)' % (
                     'all depth-2 trees' if tier == 'thorough' else 'depth-2 trees nested on one side'),
         'exhaustive': True,
